@@ -95,6 +95,14 @@ WdReset ==
 WdSetTimeout(t) ==
     /\ sh.kind = "wd" /\ wdTimeout' = t /\ wdStart' = NowUs /\ wdExp' = NowUs + t /\ wdEpochs' = 0 /\ wdEnabled' = TRUE
     /\ ret' = [r |-> FALSE] /\ UNCHANGED <<sh, now, tgl, bdv, pfv, wdLastPrint, prints>>
+\* enable() is what reset() does; disable() does nothing (as implemented: expiry keeps being measured from the last reset)
+WdDisable ==
+    /\ sh.kind = "wd" /\ ret' = [r |-> FALSE] /\ UNCHANGED <<sh, now, tgl, bdv, pfv, wdv>>
+\* getTime(): time since the watchdog was last fed; getTimeout()
+WdGetTime ==
+    /\ sh.kind = "wd" /\ ret' = [r |-> NowUs - wdStart] /\ UNCHANGED <<sh, now, tgl, bdv, pfv, wdv>>
+WdGetTimeout ==
+    /\ sh.kind = "wd" /\ ret' = [r |-> wdTimeout] /\ UNCHANGED <<sh, now, tgl, bdv, pfv, wdv>>
 WdIsExpired ==
     /\ sh.kind = "wd" /\ ret' = [r |-> NowUs > wdExp]
     /\ UNCHANGED <<sh, now, tgl, bdv, pfv, wdv>>
@@ -114,7 +122,7 @@ EvEnabled(ev) ==
       [] ev.e = "sample" -> sh.kind = "toggle"
       [] ev.e \in {"bget", "bdset"} -> sh.kind = "bd"
       [] ev.e = "rec" -> sh.kind = "pf"
-      [] ev.e \in {"reset", "settimeout", "expired", "epoch", "print"} -> sh.kind = "wd"
+      [] ev.e \in {"reset", "enable", "disable", "gettime", "gettimeout", "settimeout", "expired", "epoch", "print"} -> sh.kind = "wd"
       [] OTHER -> FALSE
 EvNext(ev) ==
     CASE ev.e = "tick" -> Tick(ev.d)
@@ -123,6 +131,10 @@ EvNext(ev) ==
       [] ev.e = "bdset" -> BdSetPeriod(ev.p)
       [] ev.e = "rec" -> PfFilter(ev.lvl)
       [] ev.e = "reset" -> WdReset
+      [] ev.e = "enable" -> WdReset
+      [] ev.e = "disable" -> WdDisable
+      [] ev.e = "gettime" -> WdGetTime
+      [] ev.e = "gettimeout" -> WdGetTimeout
       [] ev.e = "settimeout" -> WdSetTimeout(ev.t)
       [] ev.e = "expired" -> WdIsExpired
       [] ev.e = "epoch" -> WdEpoch
